@@ -5,6 +5,7 @@ import JSL.Model.Guards
 import JSL.Model.Compile
 import JSL.Model.Classic
 import JSL.Model.Roomy
+import JSL.Model.FuelBound
 
 /-!
 # Line-protocol driver
@@ -202,7 +203,7 @@ def command (sc : Scen) (key : String) (v : List Int) : IO Scen := do
       match envReset orc inst sc.cfg sc.state r0 with
       | .error e => printErr e; pure { sc with env := none }
       | .ok (env, mic) =>
-        IO.println s!"G {b01 (wfB inst)} {b01 (shapeB inst sc.state)} {b01 (conservedB sc.state)} {b01 (capB inst sc.state)} {b01 (restB sc.state)} {b01 (placedB inst sc.state)} {b01 (nonnegB inst)} {b01 (sc.orc.all fun row => row.all fun v => decide (0 ≤ v))} {b01 (detInstB inst)} {b01 (noOutagesB inst)} {b01 (tablesTotalB inst)} {b01 (readyB inst sc.state)} {b01 (outRestB sc.state)} {b01 (outPastB sc.state)} {b01 (flexInstB inst)} {b01 (hasAgvB inst)} {b01 (totalClassB inst sc.state)} {b01 (classicInstB inst)}"
+        IO.println s!"G {b01 (wfB inst)} {b01 (shapeB inst sc.state)} {b01 (conservedB sc.state)} {b01 (capB inst sc.state)} {b01 (restB sc.state)} {b01 (placedB inst sc.state)} {b01 (nonnegB inst)} {b01 (sc.orc.all fun row => row.all fun v => decide (0 ≤ v))} {b01 (detInstB inst)} {b01 (noOutagesB inst)} {b01 (tablesTotalB inst)} {b01 (readyB inst sc.state)} {b01 (outRestB sc.state)} {b01 (outPastB sc.state)} {b01 (flexInstB inst)} {b01 (hasAgvB inst)} {b01 (totalClassB inst sc.state)} {b01 (classicInstB inst)} {b01 (fuelOKB inst sc.cfg.fuel)}"
         IO.println s!"L {st.lb} {st.tmax}"
         if sc.obsKind == 0 then
           IO.println s!"B {inst.jobs.length} {inst.machines.length} {maxOpsPerJob inst} {maxOpsPerMachine inst} 1"
@@ -212,7 +213,7 @@ def command (sc : Scen) (key : String) (v : List Int) : IO Scen := do
         pure { sc with env := some env }
   | "KCLASSIC", _ =>
     -- the hypotheses of the C06 reachability theorems that depend on the instance: class, start, fuel
-    IO.println s!"K {b01 (classicInstB inst)} {b01 (classicStartModelB inst sc.state)} {b01 (classicFuelB inst sc.cfg.fuel)}"
+    IO.println s!"K {b01 (classicInstB inst)} {b01 (classicStartModelB inst sc.state)} {b01 (classicFuelB inst sc.cfg.fuel)} {b01 (classicFuelEarlyB inst sc.cfg.fuel)} {b01 (enoughAgvsB inst)}"
     pure sc
   | "ACT", [a] =>
     match sc.env with
